@@ -140,11 +140,24 @@ def oracle_set_state(ctx, res):
     tol = math.pi * 1e-4 * 1.1 + 1e-9
     cases = [(0.0, 0.0), (math.pi, 0.0), (math.pi / 2, math.pi / 2), (math.pi / 2, math.pi), (1.0, 2.0)]
     cases += [(rng.uniform(0, math.pi), rng.uniform(0, 2 * math.pi)) for _ in range(n)]
+    # the documented state is defined for every real (theta, phi): negative angles, angles beyond
+    # 2 pi and below -2 pi, exact multiples
+    cases += [(-math.pi / 3, 1.0), (1.0, -math.pi / 3), (-2 * math.pi - math.pi / 3, 0.5),
+              (math.pi / 2, -5 * math.pi / 2), (7 * math.pi + 0.25, 9 * math.pi - 0.5), (-4 * math.pi, 4 * math.pi),
+              (2 * math.pi, 0.3), (0.3, 2 * math.pi)]
+    cases += [(rng.uniform(-25, 25), rng.uniform(-25, 25)) for _ in range(n // 2)]
     for theta, phi in cases:
         res.evaluations += 1
         res.count("oracle:set_qubit_state")
         res.nontrivial.add(("set_state", round(theta, 9), round(phi, 9)))
-        out = run_unitary(lambda q: tb.set_qubit_state(q, phi=phi, theta=theta), 1, np.array([1, 0], dtype=complex))
+        try:
+            out = run_unitary(lambda q: tb.set_qubit_state(q, phi=phi, theta=theta), 1,
+                              np.array([1, 0], dtype=complex))
+        except Exception as exc:  # a finite angle must be realised, not rejected
+            res.failures.append({"what": "set_qubit_state raises for finite angles", "kf": None,
+                                 "input": {"theta": theta, "phi": phi,
+                                           "error": f"{type(exc).__name__}: {str(exc)[:200]}"}})
+            continue
         want = np.array([math.cos(theta / 2), np.exp(1j * phi) * math.sin(theta / 2)])
         d = phase_dist(out, want)
         if d > tol:
